@@ -2,7 +2,7 @@
    Property theorems only: each closed by [exact] of a lemma proved in Engine/Match*.v. *)
 From Coq Require Import List String Bool.
 From Helm Require Import Common.Assoc Engine.Types Engine.Eff Engine.Ops Engine.Cluster Engine.Seq.
-From Helm Require Import Engine.MatchDefs Engine.MatchUpdate Engine.MatchExamples.
+From Helm Require Import Engine.MatchDefs Engine.MatchUpdate Engine.MatchExamples Engine.MatchRun Engine.MatchOps.
 Import ListNotations.
 
 (* kube.Client.update against an API server that rejects nothing ([kfault = None]), for every
@@ -118,3 +118,66 @@ Example C02_unknown_live_target_fails :
                           [cm "a" [("d:k", "v2")]; cm "b" [("d:k", "v2")]]%string))) = false.
 Proof. exact unknown_live_target_fails. Qed.
 Print Assumptions C02_unknown_live_target_fails.
+
+(* ---- uninstall ---- *)
+
+(* A successful uninstall (hooks disabled, or hooks that succeed and whose objects are not
+   manifest resources; no request fault, no storage fault, no crash) of a release whose latest
+   revision [last] is not already uninstalled: every manifest resource whose policy annotation
+   does not say keep (case-insensitive, trimmed) is absent; the others — exactly
+   [filter manifest_keep (manifest last)], the list the response reports — are untouched; so is
+   every object outside the manifest and the hooks.  For EVERY content of the cluster. *)
+Theorem C02_uninstall_matches :
+  forall (rn ns : string) (fl : flags) (hf : option (string * nat)) (wf : bool)
+         (w w' : world) (tr : list tev) (last : release),
+    f_dry_run fl = false ->
+    max_rev_of (w_led w) = Some last -> st last <> SUninstalled ->
+    NoDup (map rkey (manifest last)) ->
+    (f_no_hooks fl = true \/
+     forall h, In h (hooks last) -> in_keys (rkey (h_res h)) (manifest last) = false) ->
+    run_store_op rn ns (mkOp (OpUninstall fl) (mkSF None None) (mkCF None hf wf)) w = (w', OOk, tr) ->
+    (forall r, In r (manifest last) -> manifest_keep r = false -> aget (rkey r) (w_objs w') = None) /\
+    (forall r, In r (filter manifest_keep (manifest last)) ->
+       aget (rkey r) (w_objs w') = aget (rkey r) (w_objs w)) /\
+    (forall key, in_keys key (manifest last) = false ->
+       (f_no_hooks fl = true \/ forall h, In h (hooks last) -> rkey (h_res h) <> key) ->
+       aget key (w_objs w') = aget key (w_objs w)).
+Proof. exact uninstall_matches. Qed.
+Print Assumptions C02_uninstall_matches.
+
+(* F6, repaired in /repo by 18ab676.  With the filter as it was (an entry whose resource-policy
+   annotation is present but not "keep" went on neither list) uninstall succeeds, purges the
+   history, and the ConfigMap annotated "helm.sh/resource-policy: foo" is still there and is not
+   among the kept ones.  [uninstall_with] is Ops.uninstall with the filter as a parameter
+   ([uninstall_with uninstall_deleted fl = uninstall fl] by reflexivity, MatchOps.v). *)
+Theorem C02_uninstall_leaks_refuted :
+  exists (w : world) (last : release) (r : res),
+    max_rev_of (w_led w) = Some last /\ In r (manifest last) /\ manifest_keep r = false /\
+    let '(w', out) := run_prog_store "rel" "default" (uninstall_with prefix_deleted no_flags) w in
+    out = OOk /\ w_led w' = [] /\ aget (rkey r) (w_objs w') <> None /\
+    ~ In r (filter manifest_keep (manifest last)).
+Proof. exact uninstall_leaks_refuted. Qed.
+Print Assumptions C02_uninstall_leaks_refuted.
+
+Theorem C02_uninstall_with_is_uninstall :
+  forall fl, uninstall_with uninstall_deleted fl = uninstall fl.
+Proof. exact uninstall_with_current. Qed.
+Print Assumptions C02_uninstall_with_is_uninstall.
+
+Example C02_uninstall_f6_repaired :
+  let '(w', out) := run_prog_store "rel" "default" (uninstall no_flags) f6_world in
+  out = OOk /\ w_objs w' = [].
+Proof. exact uninstall_f6_repaired. Qed.
+Print Assumptions C02_uninstall_f6_repaired.
+
+(* the hypotheses of C02_uninstall_matches on a release with keep / "Keep " / delete / no
+   annotation, a pre+post-delete hook and a bystander *)
+Example C02_uninstall_hypotheses_met :
+  f_dry_run no_flags = false /\ max_rev_of (w_led un_world) = Some un_last /\ st un_last <> SUninstalled /\
+  NoDup (map rkey (manifest un_last)) /\
+  (forall h, In h (hooks un_last) -> in_keys (rkey (h_res h)) (manifest un_last) = false) /\
+  let '(w', out, _) := run_store_op "rel" "default" (mkOp (OpUninstall no_flags) (mkSF None None) (mkCF None None false)) un_world in
+  out = OOk /\ map fst (w_objs w') = ["ConfigMap/a"; "ConfigMap/b"; "ConfigMap/z"]%string /\
+  model_kept un_world = ["[ConfigMap] a"; "[ConfigMap] b"]%string.
+Proof. exact uninstall_example. Qed.
+Print Assumptions C02_uninstall_hypotheses_met.
